@@ -593,6 +593,7 @@ def corr_stage(ctx, cases, observe, to_coq, header, check_fn, oracle=None, show_
     terms = []
     kept = []
     explained = set()     # indices of cases on which the oracle itself reported a violation (listed or not)
+    explained_listed = set()   # ... of these, the ones whose key is a listed known finding
     for case in cases:
         try:
             obs = observe(case)
@@ -610,8 +611,10 @@ def corr_stage(ctx, cases, observe, to_coq, header, check_fn, oracle=None, show_
             v = oracle(case, obs)
             if v:
                 what, key = v
-                ctx.violation(what, {"case": case, "observed": obs}, key=key)
+                listed = ctx.violation(what, {"case": case, "observed": obs}, key=key) is False
                 explained.add(len(terms))
+                if listed:
+                    explained_listed.add(len(terms))
         terms.append(to_coq(case, obs))
         kept.append((case, obs))
     if not terms:
@@ -627,7 +630,10 @@ def corr_stage(ctx, cases, observe, to_coq, header, check_fn, oracle=None, show_
             ctx.violation("%s cases could not be evaluated by the model (model build broken?)" % label,
                           {"errors": [e[:1500] for e in errors]}, no_input=True)
         return
-    ctx.obligation("%s: model = implementation on %d cases" % (label, len(terms)), not bad)
+    # a disagreement on a case that IS a listed finding (the model states the property, the implementation
+    # is known to deviate there) does not undo the tie; every other disagreement does
+    ctx.obligation("%s: model = implementation on %d cases" % (label, len(terms)),
+                   not [i for i in bad if i not in explained_listed])
     unexplained = [i for i in bad if i not in explained]
     if bad and not unexplained:
         ctx.notes.append("%d model/implementation disagreements, all on cases where the oracle reported a property violation" % len(bad))
